@@ -367,6 +367,11 @@ func checkC06(ctx *Ctx) *Result {
 		}
 		reportMismatches(r, "R6.5", val, vf, func(m mismatch) bool { return true }, "per-element behaviour differs from the documented, order-free table")
 	}
+	r.rule("R6.6", "rendering is read-only: nothing reachable from Config()/newConfig writes memory of the configuration being rendered (a second Config() must see the same state)", 1)
+	if ncf := p.Func(pkgRoot, "newConfig"); ncf != nil {
+		checkWrites(ctx, r, ctx.WE(), "R6.6", ncf, func(rt Root) bool { return rt.Kind == RLocal || rt.Kind == RConst },
+			"modifies the configuration while rendering it")
+	}
 	if te := p.Func(pkgOrigins, "(*Tree).Elems"); te != nil {
 		x3 := p.NewExec(p.RadixPolicy)
 		ps := x3.Summarize(te)
